@@ -1,5 +1,6 @@
 import RepeVerif.Lemmas.LifecycleRegistry
 import RepeVerif.Gen.Lifecycle
+import RepeVerif.Props.C16
 /-!
 # C15 — Connection lifecycle hooks fire once, in order, on every exit path
 
@@ -39,6 +40,9 @@ clause → theorem
   present from connect until disconnect and absent afterwards ... `registry_presence` (uses C18's invariant and
                                                                step equations; every interleaving with calls made
                                                                for other peers)
+* a parked off-reader handler holding a permit when the
+  connection ends (composition with C16) ........................ `parked_handlers_cancelled_and_slots_freed` (uses `C16.exit_frees_slot`,
+                                                               `C16.all_exited_running_zero`)
 * (supporting) the writer task does not outlive the connection
   task; registry entry is released before the writer is awaited . `writer_torn_down_with_task`, `released_before_writer_drain`
 
@@ -47,6 +51,14 @@ drops its live locals; exercised by the correspondence runs), a disconnect hook 
 -/
 namespace Repe.C15
 open Repe.Lifecycle
+
+/- `Props/C16.lean` (imported for the composition theorem at the end) brings the off-reader model's
+`Repe.St`, `Repe.Ev`, `Repe.step`, `Repe.run` into scope; inside this namespace the bare names mean the
+lifecycle model's. -/
+abbrev St := Lifecycle.St
+abbrev Ev := Lifecycle.Ev
+abbrev step := Lifecycle.step
+abbrev run := Lifecycle.run
 
 /-- The source has the placement the theorems need (re-checked against the regenerated facts). -/
 theorem source_facts : Gen.Lifecycle.facts.ok = true := by decide
@@ -115,14 +127,14 @@ theorem failed_handshake_stays_unaccepted (c : Cfg) (a : Act) (as : List Act) (s
       (s'.accepted = false ∧ s'.phase = .done) := by
     intro s a s' ⟨h1, h2⟩ hs
     have ts := trySend_fields c s
-    cases a <;> simp only [step, h2] at hs <;> (repeat' split at hs) <;> (try (simp at hs)) <;>
+    cases a <;> simp only [step, Lifecycle.step, h2] at hs <;> (repeat' split at hs) <;> (try (simp at hs)) <;>
       (try (obtain ⟨_, hs⟩ := hs)) <;> (try subst hs) <;> simp_all [enqueue]
-  simp only [run] at hr
+  simp only [run, Lifecycle.run] at hr
   rcases h with rfl | rfl
-  · have : step c init .handshakeFail = some { init with phase := .done } := rfl
+  · have : Lifecycle.step c init .handshakeFail = some { init with phase := .done } := rfl
     rw [this] at hr
     exact (run_preserves (P := fun s => s.accepted = false ∧ s.phase = .done) hstep ⟨rfl, rfl⟩ hr).1
-  · have : step c init .abort = some (teardown c init) := rfl
+  · have : Lifecycle.step c init .abort = some (teardown c init) := rfl
     rw [this] at hr
     have e : (teardown c init).accepted = false ∧ (teardown c init).phase = .done := by
       simp [teardown, dropGuard, init]
@@ -159,7 +171,7 @@ theorem running_handlers_see_cancel (c : Cfg) (hc : c.F = Gen.Lifecycle.facts) (
     intro s a s' ⟨h1, h2⟩ hs
     refine ⟨token_step s a s' h1 hs, ?_⟩
     have ts := trySend_fields c s
-    cases a <;> simp only [step, h2] at hs <;> (repeat' split at hs) <;> (try (simp at hs)) <;>
+    cases a <;> simp only [step, Lifecycle.step, h2] at hs <;> (repeat' split at hs) <;> (try (simp at hs)) <;>
       (try (obtain ⟨_, hs⟩ := hs)) <;> (try subst hs) <;> simp_all [enqueue]
   exact run_preserves (P := fun s => s.token = true ∧ s.phase = .done) hstep ⟨ht, hd⟩ hrun
 
@@ -384,5 +396,58 @@ example : run (withFacts { Facts.good with writerBeforeGuard := false }) init
 /-- no `AbortOnDrop`: an aborted task leaves its writer running -/
 example : (run (withFacts { Facts.good with abortOnDrop := false }) init (hooksOk ++ [.abort])).map
     (fun s => (s.phase, s.writer)) = some (.done, .signalled) := by decide
+
+/-! ### composition with C16: a parked off-reader handler holding a permit when the connection ends
+
+`Model/OffReader.lean` (C16) is the permit bookkeeping of the same connection: `Repe.St.running` are the
+handlers `spawn_off_reader` admitted, each holding one of the connection's permits.  The lifecycle
+model's `handlers` are their ids.  When the connection task is gone the blocking threads live on. -/
+
+/-- Every handler the lifecycle model says is still running is a running handler of the off-reader
+bookkeeping `o`. -/
+def CoupledOff (s : St) (o : Repe.St) : Bool :=
+  s.handlers.all (fun h => o.running.any (fun r => r.id == h))
+
+/-- **Parked handlers after the end.**  Take any state in which the task of an accepted connection is
+gone, with off-reader bookkeeping `o` satisfying C16's invariant.  Every handler `h` still running
+(parked or not) (1) reads a cancelled token through `ctx.is_cancelled()`, now and along every
+continuation; (2) can return in any way: its return is a move of the lifecycle model (its response is
+discarded — the writer is gone — and nothing else changes) and (3) by C16's `exit_frees_slot` that
+return (value, error or panic) frees its slot: one fewer handler runs, C16's invariant is kept, and
+with a cap the permit count drops by one; (4) once all of them have returned no permit is held
+(`all_exited_running_zero`). -/
+theorem parked_handlers_cancelled_and_slots_freed (c : Cfg) (hc : c.F = Gen.Lifecycle.facts) (s : St)
+    (hr : Reachable c s) (ha : s.accepted = true) (hd : s.phase = .done)
+    (o : Repe.St) (hi : Repe.Inv o) (hco : CoupledOff s o = true)
+    (h : Nat) (hh : h ∈ s.handlers) (k : Repe.ExitKind) (resp : Option Nat) :
+    seenByHandlers s = true ∧
+    (∀ as s', run c s as = some s' → seenByHandlers s' = true) ∧
+    (∃ s', step c s (.offFinish h resp) = some s' ∧ s'.handlers = s.handlers.erase h ∧ s'.wire = s.wire ∧
+      s'.log = s.log ∧ s'.trace = s.trace ∧ seenByHandlers s' = true) ∧
+    (let o' := Repe.step Gen.offFacts o (.exit h k)
+     o'.running.length + 1 = o.running.length ∧ Repe.Inv o' ∧
+     ∀ cap, o.cap = some cap → o'.permits + 1 = o.permits ∧ o'.running.length < cap) ∧
+    (∀ ks : Repe.Run → Repe.ExitKind,
+      let o' := Repe.run Gen.offFacts o (o.running.map (fun r => Repe.Ev.exit r.id (ks r)))
+      o'.running = [] ∧ ∀ cap, o.cap = some cap → o'.permits = 0) := by
+  obtain ⟨h1, h2⟩ := running_handlers_see_cancel c hc s hr ha hd
+  have hw := writer_torn_down_with_task c hc s hr ha hd
+  have hrun : ∃ r ∈ o.running, r.id = h := by
+    simp only [CoupledOff, List.all_eq_true, List.any_eq_true, beq_iff_eq] at hco
+    exact hco h hh
+  have hclosed : chanOpen { s with handlers := s.handlers.erase h } = false := by
+    rcases hw with hw | hw <;> simp [chanOpen, hw, hd]
+  refine ⟨h1, fun as s' hrn => (h2 as s' hrn).1, ?_, C16.exit_frees_slot o hi h k hrun, fun ks => ?_⟩
+  · cases resp with
+    | none => exact ⟨{ s with handlers := s.handlers.erase h }, by simp [step, Lifecycle.step, hh], rfl, rfl, rfl, rfl, h1⟩
+    | some id => exact ⟨{ s with handlers := s.handlers.erase h }, by simp [step, Lifecycle.step, hh, hclosed], rfl, rfl, rfl, rfl, h1⟩
+  · have := C16.all_exited_running_zero o hi ks
+    exact ⟨this.1, this.2.1⟩
+
+/-- the hypotheses are satisfiable: embedder cancellation with handler 7 parked, holding one of two permits -/
+example :
+    let s := (run demo init (hooksOk ++ [.recvOff 7, .parentCancel, .selectCancelled, .writerFinish, .writerJoined])).getD init
+    let o := Repe.run Gen.offFacts (Repe.St.init (some 2)) [.arrive ⟨7, .blocking, false, false, 0⟩]
+    s.phase = .done ∧ s.accepted = true ∧ 7 ∈ s.handlers ∧ CoupledOff s o = true ∧ o.permits = 1 := by decide
 
 end Repe.C15
